@@ -186,4 +186,35 @@ def xDBLMULgen (nbits : Nat) (bound : Option Nat) (k l : Nat) (P Q PQ : EcPoint 
 def xDBLMUL (nbits k l : Nat) (P Q PQ : EcPoint F) (curve : EcCurve F) : EcPoint F :=
   xDBLMULgen nbits none k l P Q PQ curve
 
+/-! ### Jacobian double-scalar multiplication (DBLMUL, DBLMUL2, DBLMUL_generic) and op sequences -/
+
+/-- one iteration of the DBLMUL loops: `R ← 2R`, then add `P+Q`, `P` or `Q` according to the two bits -/
+def jacDblmulStep (P Q PQ : JacPoint F) (curve : EcCurve F) (R : JacPoint F) (kl : Bool × Bool) : JacPoint F :=
+  let R := DBL R curve
+  if kl.1 && kl.2 then ADD R PQ curve
+  else if kl.1 then ADD R P curve
+  else if kl.2 then ADD R Q curve
+  else R
+
+/-- `DBLMUL` (nbits = 64), `DBLMUL2` (128), `DBLMUL_generic` (64·size): bits most significant first -/
+def jacDBLMUL (nbits k l : Nat) (P Q : JacPoint F) (curve : EcCurve F) : JacPoint F :=
+  let PQ := ADD P Q curve
+  ((bitsMSB nbits k).zip (bitsMSB nbits l)).foldl (jacDblmulStep P Q PQ curve) jac_init
+
+/-- a straight-line program over Jacobian registers: `(1,i,j)` = ADD, `(2,i,_)` = DBL, `(3,i,_)` = jac_neg; every
+    result is appended as a new register; the value is the last register -/
+def jacSeq (curve : EcCurve F) (regs : List (JacPoint F)) (prog : List (Nat × Nat × Nat)) : Option (JacPoint F) :=
+  let out := prog.foldl (fun (acc : Option (List (JacPoint F))) op =>
+    match acc with
+    | none => none
+    | some rs =>
+      match op.1, rs[op.2.1]?, rs[op.2.2]? with
+      | 1, some a, some b => some (rs ++ [ADD a b curve])
+      | 2, some a, _ => some (rs ++ [DBL a curve])
+      | 3, some a, _ => some (rs ++ [jac_neg a])
+      | _, _, _ => none) (some regs)
+  match out with
+  | some rs => rs.getLast?
+  | none => none
+
 end SqiModel.Ladder
